@@ -413,6 +413,9 @@ class Interp(object):
                     # an opaque value is a computed one, never None
                     return neg
                 return Opaque('(%s%s%s)' % (key_of(a), '!=' if neg else '==', key_of(b)))
+            if isinstance(a, ClassRef) and isinstance(b, ClassRef):
+                r = (a.rel, a.node.name) == (b.rel, b.node.name)
+                return (not r) if neg else r
             if isinstance(op, (ast.Is, ast.IsNot)):
                 r = a is b or (a == b and isinstance(a, (bool, int, str, type(None))) and type(a) == type(b))
             else:
@@ -870,14 +873,23 @@ class Interp(object):
             else:
                 A['top'] = 'add_constant with a computed name'
             return None
-        if attr == 'set_output_arrays':
+        if attr in ('set_output_arrays', 'add_output_arrays'):
             v = args[0] if args else kwargs.get('props')
-            A['output_property_arrays'] = list(self.iterate(v, node)) if not unknown(v) else []
-            return None
-        if attr == 'add_output_arrays':
-            v = args[0] if args else kwargs.get('props')
-            if not unknown(v):
-                A['output_property_arrays'] = list(A['output_property_arrays']) + [x for x in self.iterate(v, node) if x not in A['output_property_arrays']]
+            if unknown(v):
+                A['top'] = 'output arrays from an unknown value'
+                return None
+            items = v if isinstance(v, list) else list(self.iterate(v, node))
+            if not A['top']:
+                for x in items:
+                    if isinstance(x, str) and x not in A['properties']:
+                        # ParticleArray._check_property
+                        raise Raised("AttributeError: property %s not present in array %s (asked for as an output array)" % (x, A['name']), node, env.get('__rel__'))
+            if attr == 'set_output_arrays':
+                A['output_property_arrays'] = v if isinstance(v, list) else items      # kept by reference, as the real method does
+            else:
+                cur = A['output_property_arrays']
+                cur.extend(items)                                                      # in place first (a list shared with other arrays grows too) ...
+                A['output_property_arrays'] = sorted(set(cur), key=str)                # ... then re-bound to a fresh list
             return None
         if attr in ('get_number_of_particles', 'get_carray', 'get', 'get_c_type', 'get_npy_array', 'set', 'set_name', 'set_num_real_particles', 'align_particles', 'set_lb_props',
                     'ensure_properties'):
@@ -952,6 +964,17 @@ def _isinstance(interp, args, kwargs, node, env):
         if isinstance(v, Inst) and nme in [c.name for r, c in interp.mro(v.cls)]:
             return True
     return False
+
+
+def _issubclass(interp, args, kwargs, node, env):
+    c, t = args
+    ts = t if isinstance(t, tuple) else (t,)
+    if not isinstance(c, ClassRef):
+        if unknown(c):
+            return Opaque('issubclass(%s)' % key_of(c))
+        raise Raised('TypeError: issubclass() arg 1 must be a class', node, env.get('__rel__'))
+    names = [x.name for r, x in interp.mro(c)]
+    return any(isinstance(x, ClassRef) and x.node.name in names for x in ts)
 
 
 def _hasattr(interp, args, kwargs, node, env):
@@ -1038,7 +1061,7 @@ def _enumerate(interp, args, kwargs, node, env):
     return list(enumerate(interp.iterate(args[0], node)))
 
 
-BUILTINS = {'list': _list, 'set': _set, 'tuple': _tuple, 'dict': _dict, 'isinstance': _isinstance, 'hasattr': _hasattr, 'getattr': _getattr, 'setattr': _setattr, 'super': _super,
+BUILTINS = {'list': _list, 'set': _set, 'tuple': _tuple, 'dict': _dict, 'isinstance': _isinstance, 'issubclass': _issubclass, 'hasattr': _hasattr, 'getattr': _getattr, 'setattr': _setattr, 'super': _super,
             'len': _len, 'dir': _dir, 'print': _print, 'sorted': _sorted, 'range': _range, 'zip': _zip, 'enumerate': _enumerate, 'abs': _b(abs), 'max': _b(max), 'min': _b(min),
             'float': _b(float), 'int': _b(int), 'str': _b(str), 'bool': _b(bool), 'sum': _b(sum), 'round': _b(round), 'any': _b(any), 'all': _b(all),
             'True': True, 'False': False, 'None': None, 'object': Opaque('object'), 'RuntimeError': Opaque('RuntimeError'), 'ValueError': Opaque('ValueError'),
